@@ -37,6 +37,27 @@ class Val:
         return ("const", v)
 
 
+_NOCONST = object()
+_mcd = {}
+
+
+def _module_const_dict(modname, name):
+    """a module-level dict bound once whose keys and values are all plain constants (str / int / bool / None), else None"""
+    key = (modname, name)
+    if key not in _mcd:
+        out = None
+        try:
+            v = S.folded(modname).env.get(name)
+        except Exception:
+            v = None
+        if isinstance(v, dict) and v and all(isinstance(k, (str, int)) and (x is None or isinstance(x, (str, int, bool))) for k, x in v.items()):
+            mod = S.module(modname)
+            if len(mod.assigns.get(name, [])) == 1:
+                out = dict(v)
+        _mcd[key] = out
+    return _mcd[key]
+
+
 def is_none(v):
     return v == Val.NONE or v == ("const", None)
 
@@ -86,11 +107,29 @@ class State:
         return tuple(out)
 
 
+def _fold_refinements(events):
+    """A token consumed by an untyped advance and then tested (`tok = advance(); if tok.type != T: error`) is, on each branch, a token of the
+    refined type set: fold every ('refine', site, types) into the ('consume', ...) event of the same site earlier on the same edge, so that the
+    consumption reads the same whether the expected type was a literal at the call or a value computed before it."""
+    if not any(ev[0] == "refine" for ev in events):
+        return events
+    out = list(events)
+    for i, ev in enumerate(out):
+        if ev[0] != "refine":
+            continue
+        for j in range(i - 1, -1, -1):
+            c = out[j]
+            if c[0] == "consume" and len(c) > 2 and c[2] == ev[1]:
+                out[j] = ("consume", frozenset(c[1]) & frozenset(ev[2])) + tuple(c[2:])
+                break
+    return tuple(out)
+
+
 class Edge:
     __slots__ = ("src", "events", "dst")
 
     def __init__(self, src, events, dst):
-        self.src, self.events, self.dst = src, tuple(events), dst
+        self.src, self.events, self.dst = src, _fold_refinements(tuple(events)), dst
 
 
 class Prod:
@@ -555,6 +594,25 @@ class _Run:
                 else:
                     yield (("tuple", vs) if isinstance(e, ast.Tuple) else ("list",)), s1, ev1
             return
+        if isinstance(e, ast.Call) and isinstance(e.func, ast.Attribute) and e.func.attr == "get" and isinstance(e.func.value, ast.Name) and e.func.value.id not in st.envs[-1] \
+                and 1 <= len(e.args) <= 2 and not e.keywords:
+            # TABLE.get(key[, default]) on a module-level table of constants: evaluated when the key is a known constant (a constant argument of this clone)
+            tbl = _module_const_dict(self.ex.mod.name, e.func.value.id)
+            if tbl is not None:
+                dflt = None
+                if len(e.args) == 2:
+                    dflt = e.args[1].value if isinstance(e.args[1], ast.Constant) else _NOCONST
+                done = False
+                for kv, s1, ev1 in self.ev(e.args[0], st):
+                    if kv[0] == "const" and dflt is not _NOCONST and (kv[1] in tbl or True):
+                        r = tbl.get(kv[1], dflt)
+                        yield (Val.NONE if r is None else ("const", r)), s1, ev1
+                        done = True
+                    else:
+                        done = False
+                        break
+                if done:
+                    return
         if isinstance(e, ast.Call):
             yield from self.call(e, st)
             return
